@@ -176,8 +176,10 @@ def main(argv=None):
 
     for l in lines:
         print(l)
-    for p in problems:
-        print(f'INCONCLUSIVE property={prop} reason={p[:2000]}')
+    for p in problems[:4]:
+        print(f'INCONCLUSIVE property={prop} reason={p[:1500]}')
+    if len(problems) > 4:
+        print(f'INCONCLUSIVE property={prop} ... and {len(problems) - 4} more reasons')
     for k in known_missing:
         print(f'NOTE property={prop} listed finding not observed in this run: {k}')
     obs = ' '.join(f'{k}={v}' for k, v in sorted(tot['observed'].items())[:40])
